@@ -8,7 +8,7 @@ EXPLANATION = ("Structural necessary condition of C08 decided over all CFG paths
                "substitution set (or its chain is followed by a helper) before the new entry is stored, so that a "
                "variable is never bound to a variable whose chain leads back to it; and the chain-following loops of "
                "the resolver functions advance only along ss[id]. Decides this ordering, not acyclicity of every history.")
-RULES = ("R1 in cell(LogicVar,LogicVar) every BIND path contains, before the store new[self.id], a read ss[other.id] "
+RULES = ("R1 in cell(LogicVar,LogicVar) every BIND path contains, before the store new[self.id], an id comparison that found the other variable (chain) different from this one and a read ss[other.id] "
          "(or a call that receives `other` together with `ss`); R2 get_ground_term / is_ground_variable / "
          "replace_variables follow chains only through ss[id]")
 TRUSTED = ["rustc nightly MIR construction"]
@@ -28,6 +28,7 @@ def run(ctx):
     ctx.stats["paths_walked"] += len(ps)
     nb = 0
     bad = None
+    bad_id = None
     for p in ps:
         if utable.classify(p, body.path) != "BIND":
             continue
@@ -51,8 +52,24 @@ def run(ctx):
                 if any(mentions(t, lambda x: x[0] == "param" and x[1] == 2) for t in ts) and \
                         any(mentions(t, lambda x: x[0] == "param" and x[1] == 3) for t in ts):
                     looked = True
+        # identity guard: on the way to the binder the other variable's (chain) id was compared with this variable's id
+        # and found different — otherwise `$X = $Y` with $Y already leading to $X binds $X to its own chain
+        sid = ("field", sp, "LogicVar.id")
+        distinct = False
+        for e in p.events:
+            if e["k"] != "branch" or e["cond"][0] != "binop" or e["cond"][1] not in ("Eq", "Ne"):
+                continue
+            a, b_ = strip(e["cond"][2]), strip(e["cond"][3])
+            for x, y in ((a, b_), (b_, a)):
+                if x == sid and (mentions(y, lambda t: t[0] == "param" and t[1] == 2) or
+                                 mentions(y, lambda t: t[0] == "param" and t[1] == 3)):
+                    differs = (e["value"] is False) if e["cond"][1] == "Eq" else (e["value"] is True)
+                    if differs:
+                        distinct = True
         if not looked:
             bad = p
+        elif not distinct:
+            bad_id = p
     if nb == 0:
         ctx.missing("R1", "a BIND path in cell(LogicVar,LogicVar)")
     else:
@@ -60,6 +77,11 @@ def run(ctx):
                "%d BIND paths all look up the other variable's binding first" % nb if bad is None else
                "a path binds self to the other variable without ever reading the other variable's own binding "
                "(ss[other.id]): `$X = $Y` followed by `$Y = $X` stores 1->$Y and 2->$X, a cycle")
+    if nb:
+        ctx.ob("R1", "var-var-identity-guard", bad_id is None, ctx.where(body),
+               "every var-var BIND path first found the other variable (or the end of its chain) to differ from this one" if bad_id is None else
+               "a path binds this variable to another variable without having compared that variable's id (or the id at the end "
+               "of its chain) with its own: a variable can be bound to a chain that leads back to it")
     # R2: resolver loops
     for name in ("substitution_set::get_ground_term", "substitution_set::is_ground_variable", "Unifiable::replace_variables"):
         b = prog.one(name)
